@@ -70,6 +70,10 @@ pub struct SessionPlan {
     /// cut the stream towards the SUT after this many bytes (reset instead of EOF if true)
     pub cut_to_sut: Option<(usize, bool)>,
     pub cut_from_sut: Option<(usize, bool)>,
+    /// cut the stream towards the SUT inside its k-th frame: `off >= 0` bytes after the start of
+    /// the frame, `off < 0` bytes before its end (reset instead of EOF if true)
+    #[serde(default)]
+    pub cut_in_frame: Option<(usize, i32, bool)>,
     /// before the k-th frame is delivered to the SUT: 0 close the replica, 1 disable sync, 2 shut the actor down
     pub local_fault: Option<(usize, u8)>,
     /// accept callback of an accepting SUT: 0 allow, 1 not found, 2 already syncing, 3 internal error
@@ -159,6 +163,7 @@ impl Scenario for Session {
             chunk: *rng.pick(&[1usize, 3, 7, 64, 4096]),
             cut_to_sut: cut(rng),
             cut_from_sut: cut(rng),
+            cut_in_frame: if rng.chance(1, 5) { Some((rng.urange(0, if flat { 6 } else { 3 }), rng.range(0, 10) as i32 - 4, rng.chance(1, 4))) } else { None },
             local_fault: if rng.chance(1, 3) { Some((rng.urange(0, if flat { 9 } else { 4 }), rng.below(4) as u8)) } else { None },
             accept: if rng.chance(3, 4) { 0 } else { rng.range(1, 3) as u8 },
             sut_doc_known: rng.chance(9, 10),
@@ -199,6 +204,11 @@ impl Scenario for Session {
             p.cut_from_sut = None;
             out.push(p);
         }
+        if plan.cut_in_frame.is_some() {
+            let mut p = plan.clone();
+            p.cut_in_frame = None;
+            out.push(p);
+        }
         if plan.local_fault.is_some() {
             let mut p = plan.clone();
             p.local_fault = None;
@@ -231,7 +241,7 @@ impl Scenario for Session {
     }
 
     fn rule(&self) -> String {
-        "A run picks the side under test (initiator or acceptor), a real counterpart or a scripted peer with up to 6 frames over {Init known/unknown, Sync valid, Sync made-up ranges, Abort x3, garbage, oversized, truncated} followed by close, read chunk sizes 1-4096, an optional cut (EOF or reset) after 0-400 bytes in each direction, an optional local fault (close replica / disable sync / shut actor down) before the k-th delivered frame, the accept callback outcome and whether the document is known and syncing. Non-trivial: a fault fired or the peer was scripted.".into()
+        "A run picks the side under test (initiator or acceptor), a real counterpart or a scripted peer with up to 6 frames over {Init known/unknown, Sync valid, Sync made-up ranges, Abort x3, garbage, oversized, truncated} followed by close, read chunk sizes 1-4096, an optional cut (EOF or reset) after 0-400 bytes in each direction, or placed inside the k-th frame towards the side under test at 0-5 bytes after its start / 1-4 bytes before its end (a stream that ends or is reset strictly inside a frame must be reported as an error), an optional local fault (close replica / disable sync / shut actor down) before the k-th delivered frame, the accept callback outcome and whether the document is known and syncing. Non-trivial: a fault fired or the peer was scripted.".into()
     }
 }
 
@@ -532,6 +542,12 @@ async fn run(plan: &SessionPlan, cx: &mut Cx) -> Res {
                             cut_now = Some(reset);
                         }
                     }
+                    if let (Some((k, off, reset)), None) = (plan.cut_in_frame, cut_now) {
+                        if k == delivered_frames {
+                            rel = if off >= 0 { (off as usize).min(n) } else { n.saturating_sub((-off) as usize) };
+                            cut_now = Some(reset);
+                        }
+                    }
                     p2s.release(rel);
                     if queue_shutdown {
                         queue_shutdown = false;
@@ -559,6 +575,17 @@ async fn run(plan: &SessionPlan, cx: &mut Cx) -> Res {
                         if reset { p2s.reset() } else { p2s.cut_eof() }
                         cx.fault(if reset { "stream_reset_to_sut" } else { "stream_cut_to_sut" });
                         cut_to_done = true;
+                        // The side under test is blocked on its read at this point (one frame per
+                        // round, quiescence in between). A stream that ends strictly inside a
+                        // frame, or that is reset before the frame is complete, cannot be taken
+                        // for a clean end of the session: it must be reported as an error.
+                        if rel < n && (reset || rel > 0) {
+                            cx.fault(if reset { "stream_reset_inside_frame_to_sut" } else { "stream_cut_inside_frame_to_sut" });
+                            if rel == 4 { cx.probe("stream_cut_right_after_length_prefix"); }
+                            if must_err.is_none() {
+                                must_err = Some(if reset { format!("a connection reset after {rel} of the {n} bytes of frame {delivered_frames}") } else { format!("an end of stream after {rel} of the {n} bytes of frame {delivered_frames}") });
+                            }
+                        }
                     } else if complete {
                         // classify scripted frames: a complete protocol-violating frame handed to a
                         // SUT that is waiting for input must make it fail
